@@ -10,7 +10,7 @@ func init() {
 		Unwind:    40, LoopBounds: fileLoopBounds,
 		Desc:    "one request to each REST v1 handler (list, show, source, mark-seen, delete, purge) and web UI handler (message, source, html, attachment) over the real StoreManager + memory store holding m messages; name from a menu of aliases of the mailbox / another mailbox / an invalid name, id from {1,2,latest,9,\"\"}; status <=> existence, payload and effects == store",
 		Bounds:  "params (messages m, handler number, back-end 0 memory / 1 file store over the file-system model); symbolic name, id, request body of mark-seen",
-		Assumes: []string{"gorilla/mux routing, net/http, encoding/json and enmime are models/stubs: handlers are called with the route variables already extracted; JSON values are compared before encoding (natively: after decoding the real JSON)", "base-path prefixing and URL-significant characters through the router are outside the claim"},
+		Assumes: []string{"gorilla/mux routing, net/http, encoding/json and enmime are models/stubs: handlers are called with the route variables already extracted; JSON values are compared before encoding (natively: after decoding the real JSON)", "base-path prefixing and URL-significant characters through the router are outside this harness (they are the subject of VerifC14Client)"},
 	})
 }
 
@@ -20,12 +20,12 @@ func init() {
 		ExtraPkgs: []string{"rest", "server/web"},
 		InitPkgs:  []string{"server/web"},
 		InitAbs:   []string{"vendor/golang.org/x/net/http/httpguts"},
-		Quick:     grid(rng(0, 5)),
-		Thorough:  grid(rng(0, 5)),
+		Quick:     grid(rng(0, 5), rng(0, 2)),
+		Thorough:  grid(rng(0, 5), rng(0, 2)),
 		Unwind:    80,
 		Desc:      "every operation of the bundled Go client, executed with the real net/url and net/http request construction (from their SSA), against a capturing transport: method, decoded path /api/v1/mailbox/<name>[/<id>[/source]], the request is routed to the mailbox route and the handler's route variable (real web.NewContext) is the mailbox name, and — for mark-seen — presence of the JSON body the handler requires",
-		Bounds:    "param (client operation); mailbox name from a menu of 9 names with URL-significant characters (symbolic selector); the escaping itself is checked for all ASCII names of <= 3 (6) bytes by VerifC14Escape",
-		Assumes:   []string{"the route table (method, path template, body requirement) is read from rest/routes.go and apiv1_controller.go; gorilla/mux matching itself is not executed under the engine: its documented segment rule stands in, applied to the decoded or the encoded path according to the useEncodedPath flag of the real web.Router object (built by package web's initialiser, executed from SSA); counterexamples are replayed against the real gorilla/mux router with the real route table", "gorilla/mux SetURLVars/Vars (request context) are modelled as a variable holding the vars of the request in flight"},
+		Bounds:    "params (client operation, base path none / inbucket / \"my app\"); mailbox name from a menu of 9 names with URL-significant characters (symbolic selector); the escaping itself is checked for all ASCII names of <= 3 (6) bytes by VerifC14Escape",
+		Assumes:   []string{"the route table (method, path template, body requirement) is read from rest/routes.go and apiv1_controller.go, the way the routes are mounted under the base path (web.RoutePrefixer) from server/lifecycle.go; gorilla/mux matching itself is not executed under the engine: its documented segment rule stands in, applied to the decoded or the encoded path according to the useEncodedPath flag of the real web.Router object (built by package web's initialiser, executed from SSA); counterexamples are replayed against the real gorilla/mux router with the real route table", "gorilla/mux SetURLVars/Vars (request context) are modelled as a variable holding the vars of the request in flight"},
 	}, Harness{
 		Prop: "C14", Pkg: "rest/client", Func: "VerifC14Escape",
 		Quick:    grid(rng(0, 3)),
